@@ -23,7 +23,7 @@ RULE = ('cases: seeded populations of 0-12 agents (after an add/remove history, 
         '(population signature, query).')
 ASSUMPTIONS = ['"every member is reachable" is checked as: each of the k members is drawn within 60*k draws (a uniform pick misses one with probability < 1e-25)']
 FLOORS = {'quick': {'queries': 6000, 'tag_zero_queries': 800, 'tag_queries': 3000, 'template_queries': 4000, 'empty_filters': 1500,
-                    'random_picks': 100000, 'reachability_checks': 700, 'shuffles': 8000, 'shuffles_reordered': 2000,
+                    'random_picks': 100000, 'reachability_checks': 700, 'shuffles': 8000, 'shuffles_reordered': 2000, 'size_preserving_swaps': 1500, 'secondary_environment_populations': 100, 'completed_model_populations': 80,
                     'reach:Core.Environment.get_agents': 100000, 'reach:Core.Environment.get_random_agent': 100000,
                     'reach:Core.Environment.shuffle': 8000},
           'thorough': {'queries': 600000, 'reachability_checks': 80000}}
@@ -51,6 +51,14 @@ def case_population(ctx, case):
     core, tags, K = fixtures()
     model = core.Model(seed=rng.randint(0, 10 ** 6))
     env = model.environment
+    secondary = rng.random() < 0.3
+    if secondary:
+        # an environment that is NOT (or not yet) the model's current one: queries must still be about ITS agents
+        env = core.Environment(model, id='second')
+        decoy = core.Agent('decoy', model, tag=0)
+        decoy.add_component(K[0](decoy, model))
+        model.environment.add_agent(decoy)
+        ctx.count('secondary_environment_populations')
     tagpool = [0, 0, tags.C13_PREY, tags.C13_PREDATOR, 77, -1]
     universe = []
     for j in range(rng.choice([0, 1, 2] + list(range(3, 13)) * 2)):
@@ -72,15 +80,29 @@ def case_population(ctx, case):
             if rng.random() < 0.5:
                 env.add_agent(a)
                 order.append(a)
-    popsig = tuple((a.id, a.tag, tuple(sorted(t.__name__ for t in a.components))) for a in order)
+    completed = rng.random() < 0.2
+    if completed:
+        model.complete()         # reporting code samples a finished model: queries and picks keep working
+        ctx.count('completed_model_populations')
     for qn in range(12):
+        if qn and order and rng.random() < 0.4:
+            # membership change between two queries that keeps the population size: one leaves, one (re-)joins
+            gone = rng.choice(order)
+            env.remove_agent(gone.id)
+            order.remove(gone)
+            outside = [a for a in universe if not any(a is b for b in order)]
+            back = rng.choice(outside)
+            env.add_agent(back)
+            order.append(back)
+            ctx.count('size_preserving_swaps')
+        popsig = tuple((a.id, a.tag, tuple(sorted(t.__name__ for t in a.components))) for a in order)
         nt = rng.choice([0, 0, 0, 1, 1, 1, 2, 2, 3, 4])
         template = [rng.choice(K) for _ in range(nt)]
         tag = rng.choice([None, None, None, 0, 0, rng.choice(tagpool), rng.choice(tagpool), 12345])
         kw = {} if tag is None and rng.random() < 0.5 else {'tag': tag}
         exp = [a for a in order if all(T in a.components for T in template) and (tag is None or a.tag == tag)]
         q = dict(template=[T.__name__ for T in template], tag=tag)
-        before = snapshot(model, universe, K)
+        before = (snapshot(model, universe, K), [id(a) for a in env])
         got = env.get_agents(*template, **kw)
         ctx.ev()
         ctx.count('queries')
@@ -135,9 +157,9 @@ def case_population(ctx, case):
         check(s1 is not s2, 'shuffle returned the same list object twice')
         if k >= 2 and (not same_objects(s1, exp) or not same_objects(s2, exp)):
             ctx.count('shuffles_reordered')
-        after = snapshot(model, universe, K)
+        after = (snapshot(model, universe, K), [id(a) for a in env])
         if before != after:
-            raise CaseViolation(f'queries changed the environment: {diff(before, after)}', query=q)
+            raise CaseViolation(f'queries changed the environment: {diff(before[0], after[0]) or "membership/order"}', query=q)
         check(same_objects(list(env), order), 'queries changed the iteration order of the environment', query=q)
         if 0 < k < len(order) and (tag is not None or len(set(template)) >= 2):
             ctx.distinct((popsig, tuple(q['template']), tag))
